@@ -48,14 +48,16 @@ def zernike_nm(n, m, r, t, norm=True):
     am = abs(m)
     n_j = (n - am) // 2
     out = jacobi(n_j, 0, am, x)
+    # not in place: for n_j == 0 jacobi returns ones_like(x), which has the
+    # (possibly integer) dtype of the coordinates
     if m != 0:
         if m < 0:
-            out *= (r ** am * np.sin(am*t))
+            out = out * (r ** am * np.sin(am*t))
         else:
-            out *= (r ** am * np.cos(m*t))
+            out = out * (r ** am * np.cos(m*t))
 
     if norm:
-        out *= zernike_norm(n, m)
+        out = out * zernike_norm(n, m)
 
     return out
 
